@@ -10,7 +10,7 @@ RULE_ROUTE = (
     "formula in the model), real SpeedTraversalEngine + grade table read from files, EnergyModelService::new, "
     "TraversalModelService::build(query) (update_from_query), StateModel::extend(state_features()), then "
     "TraversalModel::traverse_edge over 1-40 edges, estimate_traversal and best_case_energy; deterministic families "
-    "first (every start-charge class x vehicle; regeneration into a full battery / exhaustion / PHEV switch at 1, 2, 10, 40 "
+    "first (every start-charge class x vehicle: absent, 0, 100, -0.0, 50, 99.999, 1e-3, 100.0000001, -1e-9, -1, 100.5, 150, strings, null, bool, array, object; regeneration into a full battery / exhaustion / PHEV switch at 1, 2, 10, 40 "
     "edges; rejected edges; the 3x5x4 unit grid of the time model), then random routes in random unit configurations "
     "(time model, service, prediction model, battery, optionally re-targeted state-model units). The state vector after "
     "EVERY edge is compared BIT FOR BIT with the FN model (M), and judged by the exact-rational checker of "
@@ -28,6 +28,8 @@ RULE_CACHE = (
 
 
 RULE_QUERIES = (
+    "first a deterministic family: for a BEV and for a PHEV target, the boundary charges 0, 100, -0.0, 100.0000001, -1e-9, 50, 99.999, "
+    "100.0, 0.0, 'abc', true, null, [50], {value: 50}, absent, -1, 101 served one after the other by one service instance; then "
     "sequences of 2-6 queries served by ONE EnergyModelService instance (library of 2-3 vehicles, affine predictors, no "
     "prediction cache): for one battery vehicle the starting_soc_percent values differ but round to the same whole percent "
     "(80.0 / 80.4, 35 / 34.6, absent or 100 / 100.3, 0 / -0.2, k+-0.45 ...), in both orders, interleaved with queries for the "
@@ -138,7 +140,7 @@ def run(chk):
         vf.compare(chk, r, classify=classify, binpath=binp)
     if _is(chk, "cache"):
         extra = judge
-        r2 = vf.run_stream(binp, "cache", 200 if quick else 4000, chk.seed, os.path.join(chk.outdir, "cache"),
+        r2 = vf.run_stream(binp, "cache", 260 if quick else 4000, chk.seed, os.path.join(chk.outdir, "cache"),
                            extra=extra, replay=chk.replay)
         chk.add_stream(r2, RULE_CACHE)
         vf.compare(chk, r2, classify=classify, binpath=binp, extra=extra)
